@@ -10,7 +10,15 @@ Clauses: `size` (exact requested size), `deterministic`, `active` (outside the a
 every pixel has the blank value), `inversion` (`Ainv` is the complement of `A` over the tile), `colours` (RGB export
 colours are the requested ones; index colours through the repo's own table `Gen.buttonColors`), `centre` (formats 10/11,
 proportional, no extra spacing, ink strictly inside the active area: left and right margins differ by at most 1),
-`bar` (scale type 1: the lit set never shrinks when the value grows).
+`argument` (the text state after the call is the state before it, except that an absent optional sub-message may have been
+replaced by an empty one — the same message in proto3), `export` (when the RGB565 export `GetImgSliceRGB` was observed:
+`2·w·h` bytes, the big-endian word of pixel (x,y) is the requested pixel colour where the bit is set and the requested
+background colour where it is clear), `bar` (scale type 1: the lit set never shrinks when the value grows).
+
+The colour clauses are written from the protocol, not from the code: a channel value 0..255 falls into one of four
+bands (0-84, 85-169, 170-254, 255 and above → 0,1,2,3: "RGB, 3x2 bits"); an index colour is the entry of the repo's
+own table (read with `[k]?`, regenerated from the source on every run), an index beyond the table selects the `DEFAULT`
+entry 0; the 2-bit fields expand to 5/6/5 bits by the documented table 0,10,20,31 / 0,21,42,63.
 -/
 namespace RawPanelVerif.Spec.Tile
 open RawPanelVerif.Gen
@@ -19,7 +27,83 @@ inductive Col where
   | rgb (r g b : Int)
   | idx (i : Int)
   | empty
-deriving Repr
+deriving Repr, DecidableEq
+
+/-! the text state as an observation (before / after the call) -/
+
+structure FontA where
+  face : Int
+  tw : Int
+  th : Int
+deriving Repr, DecidableEq
+
+structure StyleA where
+  fixedWidth : Bool
+  titlePad : Int
+  extraSp : Int
+  unfSize : Int
+  textFont : Option FontA
+  titleFont : Option FontA
+deriving Repr, DecidableEq
+
+structure ScaleA where
+  stype : Int
+  rl : Int
+  rh : Int
+  ll : Int
+  lh : Int
+deriving Repr, DecidableEq
+
+structure ArgA where
+  inverted : Bool
+  intVal : Int
+  intVal2 : Int
+  fmt : Int
+  stateIcon : Int
+  modIcon : Int
+  solid : Bool
+  pair : Int
+  title : List Nat
+  line1 : List Nat
+  line2 : List Nat
+  scale : Option ScaleA
+  styling : Option StyleA
+  pix : Option Col
+  bg : Option Col
+deriving Repr, DecidableEq
+
+/-- the empty (all-default) sub-messages of proto3 -/
+def emptyFont : FontA := { face := 0, tw := 0, th := 0 }
+def emptyScale : ScaleA := { stype := 0, rl := 0, rh := 0, ll := 0, lh := 0 }
+def emptyStyle : StyleA := { fixedWidth := false, titlePad := 0, extraSp := 0, unfSize := 0, textFont := none, titleFont := none }
+
+/-- an optional sub-message after the call: unchanged, or (if it was absent) absent or empty -/
+def keptOrEmpty {α : Type} [DecidableEq α] (empty : α) (pre post : Option α) : Bool :=
+  match pre, post with
+  | some a, some b => decide (a = b)
+  | none, none => true
+  | none, some b => decide (b = empty)
+  | some _, none => false
+
+def styleKept (pre post : StyleA) : Bool :=
+  pre.fixedWidth == post.fixedWidth && pre.titlePad == post.titlePad && pre.extraSp == post.extraSp &&
+  pre.unfSize == post.unfSize && keptOrEmpty emptyFont pre.textFont post.textFont &&
+  keptOrEmpty emptyFont pre.titleFont post.titleFont
+
+def stylingKept (pre post : Option StyleA) : Bool :=
+  match pre, post with
+  | some a, some b => styleKept a b
+  | none, none => true
+  | none, some b => styleKept emptyStyle b
+  | some _, none => false
+
+/-- clause `argument` -/
+def argOk (pre post : ArgA) : Bool :=
+  pre.inverted == post.inverted && pre.intVal == post.intVal && pre.intVal2 == post.intVal2 && pre.fmt == post.fmt &&
+  pre.stateIcon == post.stateIcon && pre.modIcon == post.modIcon && pre.solid == post.solid && pre.pair == post.pair &&
+  pre.title == post.title && pre.line1 == post.line1 && pre.line2 == post.line2 &&
+  decide (pre.pix = post.pix) && decide (pre.bg = post.bg) &&
+  keptOrEmpty emptyScale pre.scale post.scale && stylingKept pre.styling post.styling
 
 structure Case where
   w : Nat
@@ -55,14 +139,19 @@ def inActive (k : Case) (X Y : Nat) : Bool :=
 def pixels (k : Case) : List (Nat × Nat) :=
   (List.range k.h).flatMap (fun Y => (List.range k.w).map (fun X => (X, Y)))
 
-/-- 8-bit channel → 2 bits as the protocol quantises it -/
-def q2 (v : Int) : Int := let m := (v * 3).tdiv 255; if m < 0 then 0 else if m > 3 then 3 else m
+/-- 8-bit channel → 2 bits: the band of 0..255 the value falls into (0-84, 85-169, 170-254, 255 and above) -/
+def q2 (v : Int) : Int := (if 85 ≤ v then 1 else 0) + (if 170 ≤ v then 1 else 0) + (if 255 ≤ v then 1 else 0)
 
+/-- entry `k` of the repo's colour table, if the table has one -/
+def tableEntry (k : Nat) : Option Int := (buttonColors[k]?).map (fun b => (b.toNat : Int))
+
+/-- the 6-bit code `rrggbb` of a colour; only the five low bits of an index are transmitted -/
 def colour6 : Col → Int
   | .rgb r g b => q2 r * 16 + q2 g * 4 + q2 b
   | .idx i =>
-    let kx := (i.emod 32).toNat
-    if kx < buttonColors.size then (buttonColors.getD kx 0).toNat else (buttonColors.getD 0 0).toNat
+    match tableEntry (i.emod 32).toNat with
+    | some v => v
+    | none => (tableEntry 0).getD 0        -- beyond the table: `DEFAULT`
   | .empty => 0
 
 /-- documented expansion rr,gg,bb (2 bit) → 5/6/5 bit: 0,1,2,3 ↦ 0,10,20,31 and 0,21,42,63; layout bbbbbggg gggrrrrr -/
@@ -109,25 +198,50 @@ def inversionOk (k : Case) (A Ainv : Nat → Nat → Bool) : Bool :=
 
 def coloursOk (k : Case) (pc bc : Int) : Bool := (pc, bc) == expectedColours k
 
-def centreOk (k : Case) (A : Nat → Nat → Bool) : Bool :=
-  if (k.fmt = 10 ∨ k.fmt = 11) ∧ k.proportional ∧ k.extraSp.emod 4 = 0 ∧ k.noLF ∧ k.edgeInk then
+/-- clause `export`: `rgb = (length, byte at index)` of the observed RGB565 export, if it was observed -/
+def exportPixelOk (k : Case) (A : Nat → Nat → Bool) (rgb : Nat → Nat) (p : Nat × Nat) : Bool :=
+  let want := if A p.1 p.2 then (expectedColours k).1 else (expectedColours k).2
+  let i := 2 * (p.2 * k.w + p.1)
+  ((rgb i * 256 + rgb (i + 1) : Nat) : Int) == want
+
+def exportOk (k : Case) (A : Nat → Nat → Bool) (rgb : Option (Nat × (Nat → Nat))) : Bool :=
+  match rgb with
+  | none => true
+  | some (len, byte) => len == 2 * k.w * k.h && (pixels k).all (exportPixelOk k A byte)
+
+/-- the line(s) fit the active area vertically: `lineH` = the renderer's own `LineHeight()` for the state (observed on the
+returned image); one line for format 10, two lines for format 11 -/
+def fitsV (k : Case) (lineH : Int) : Bool :=
+  let (_, y0, _, y1) := active k
+  if k.fmt = 10 then decide (lineH ≤ y1 - y0) else decide (2 * lineH ≤ y1 - y0)
+
+def centreOk (k : Case) (A : Nat → Nat → Bool) (lineH : Int) : Bool :=
+  -- a negative border is outside every documented range: the property does not say where the active area is then;
+  -- the property speaks about texts that fit the active area vertically (`fitsV`; `Props/C18.lean`,
+  -- `centre_needs_vertical_fit_counterexample`: two lines in a 4-pixel-high tile show only the dot of a "j")
+  if (k.fmt = 10 ∨ k.fmt = 11) ∧ k.proportional ∧ k.extraSp.emod 4 = 0 ∧ k.noLF ∧ k.edgeInk ∧ 0 ≤ k.border ∧
+      fitsV k lineH = true then
     let (_, y0, _, y1) := active k
     let mid := y0 + (y1 - y0) / 2
     if k.fmt = 10 then centredIn k A y0 y1 else centredIn k A y0 mid && centredIn k A mid y1
   else true
 
-def check (k : Case) (W H : Int) (lenA lenAinv : Nat) (A Ainv : Nat → Nat → Bool) (pc bc : Int) (det : Bool) :
-    Option String :=
+def check (k : Case) (W H : Int) (lenA lenAinv : Nat) (A Ainv : Nat → Nat → Bool) (pc bc : Int) (det : Bool)
+    (pre post : ArgA) (rgb : Option (Nat × (Nat → Nat))) (lineH : Int) : Option String :=
   if !sizeOk k W H lenA lenAinv then some "size"
   else if !det then some "deterministic"
   else if !activeOk k A then some "active"
   else if !inversionOk k A Ainv then some "inversion"
   else if !coloursOk k pc bc then some "colours"
-  else if !centreOk k A then some "centre"
+  else if !centreOk k A lineH then some "centre"
+  else if !argOk pre post then some "argument"
+  else if !exportOk k A rgb then some "export"
   else none
 
-def checkBytes (k : Case) (W H : Int) (A Ainv : Array UInt8) (pc bc : Int) (det : Bool) : Option String :=
-  check k W H A.size Ainv.size (bitAt (wib k) A) (bitAt (wib k) Ainv) pc bc det
+def checkBytes (k : Case) (W H : Int) (A Ainv : Array UInt8) (pc bc : Int) (det : Bool)
+    (pre post : ArgA) (rgb : Option (Array UInt8)) (lineH : Int) : Option String :=
+  check k W H A.size Ainv.size (bitAt (wib k) A) (bitAt (wib k) Ainv) pc bc det pre post
+    (rgb.map (fun r => (r.size, fun i => (r.getD i 0).toNat))) lineH
 
 /-- scale type 1, value `v1 ≤ v2`, everything else equal: nothing lit at `v1` goes dark at `v2` -/
 def checkBar (k : Case) (A1 A2 : Array UInt8) : Option String :=
